@@ -267,7 +267,7 @@ func (m *wireModel) WSeqs(f *ssa.Function) [][]string {
 			for _, a := range call.Call.Args[1:] {
 				args = append(args, core.Sym(a))
 			}
-			out = []string{"call:" + callee.Name() + "(" + strings.Join(args, ",") + ")"}
+			out = []string{"call:" + core.CanonName(callee) + "(" + strings.Join(args, ",") + ")"}
 		} else if callee == m.wprim {
 			out = []string{m.writeArg(call.Call.Args[1])}
 		} else if sub := m.WSeqs(callee); recvNamed(callee) != "StreamWriter" || len(sub) > 3 {
@@ -275,7 +275,7 @@ func (m *wireModel) WSeqs(f *ssa.Function) [][]string {
 			for _, a := range call.Call.Args[1:] {
 				args = append(args, core.Sym(a))
 			}
-			out = []string{"call:" + callee.Name() + "(" + strings.Join(args, ",") + ")"}
+			out = []string{"call:" + core.CanonName(callee) + "(" + strings.Join(args, ",") + ")"}
 		} else {
 			var args []string
 			for _, a := range call.Call.Args {
@@ -502,7 +502,7 @@ func (m *wireModel) RSeqs(f *ssa.Function) [][]string {
 			for _, a := range call.Call.Args[1:] {
 				args = append(args, core.Sym(a))
 			}
-			out = []string{"call:" + call.Call.StaticCallee().Name() + "(" + strings.Join(args, ",") + ")"}
+			out = []string{"call:" + core.CanonName(call.Call.StaticCallee()) + "(" + strings.Join(args, ",") + ")"}
 		case call.Call.StaticCallee() != nil && m.recur[call.Call.StaticCallee()] && m.unroll:
 			// expand a cycle member in place, once
 			callee := call.Call.StaticCallee()
@@ -574,7 +574,7 @@ func (m *wireModel) RSeqs(f *ssa.Function) [][]string {
 					return nil
 				}
 				if recvNamed(callee) != "StreamReader" || len(sub) > 3 {
-					out = []string{"call:" + callee.Name() + "(" + strings.Join(args[1:], ",") + ")"}
+					out = []string{"call:" + core.CanonName(callee) + "(" + strings.Join(args[1:], ",") + ")"}
 				} else if len(sub) == 1 {
 					for _, e := range sub[0] {
 						out = append(out, mapDests(substitute(e, args), call))
@@ -624,7 +624,7 @@ func wireEdgeLabel(ifi *ssa.If, idx int) string {
 				return fmt.Sprintf("case:%d", k)
 			}
 		}
-		if call, ok := cond.X.(*ssa.Call); ok && call.Call.StaticCallee() != nil && call.Call.StaticCallee().Name() == "fixedWidth" && len(call.Call.Args) == 1 {
+		if call, ok := cond.X.(*ssa.Call); ok && call.Call.StaticCallee() != nil && core.CanonName(call.Call.StaticCallee()) == "fixedWidth" && len(call.Call.Args) == 1 {
 			if k, ok := core.ConstInt(cond.Y); ok {
 				s := fmt.Sprintf("fw(%s)%s%d", core.Sym(call.Call.Args[0]), cond.Op, k)
 				if idx == 1 {
